@@ -256,6 +256,27 @@ def population(rng, reps=1, lowrank=True):
                 nc = int(rng.randint(1, d))
                 est, X, y, args = fitted(name, rng, d=d, params=dict(n_components=nc))
                 out.append((f'{name}[n_components={nc}<{d}]', est, X, y))
+        # data in very small / very large units, with the data-dependent initial matrices (their eigenvalues then lie far
+        # from 1: singular or ill-conditioned learned matrices with a large spectrum)
+        for name, prm in [('MMC', dict(init='covariance', max_iter=100)), ('MMC_Supervised', dict(init='covariance', max_iter=100)), ('ITML', dict(prior='covariance')),
+                          ('LSML', dict(prior='covariance')), ('Covariance', {}), ('RCA_Supervised', {}), ('LFDA', {}), ('NCA', dict(init='pca'))]:
+            unit = float(10.0 ** rng.choice([-3, -4, 3] if not name.startswith('MMC') else [-3, -4]))   # (MMC's projection keeps M singular)
+            n_classes = int(rng.randint(2, 4)); d = int(rng.randint(2, 5))
+            X, y = blobs(rng, d, n_classes, max(6, int(np.ceil(4 * d / n_classes)) + 2))
+            try:
+                if name == 'MMC_Supervised':
+                    # the library defaults (constraint count, iteration budget) on a slightly larger data set
+                    d = int(rng.randint(2, 9)); n = 4 * d + int(rng.randint(8, 30)); k = int(rng.randint(2, 4))
+                    y = np.arange(n) % k
+                    X = (rng.randn(n, d) * rng.uniform(0.5, 3, d) + y[:, None] * rng.randn(d)) * unit
+                    with warnings.catch_warnings():
+                        warnings.simplefilter('ignore')
+                        est = CLASSES[name](init='covariance', random_state=int(rng.randint(1 << 30))).fit(X, y)
+                else:
+                    est, X, y, args = fitted(name, rng, params=prm, data=(X * unit, y))
+            except Exception:
+                continue
+            out.append((f'{name}[{",".join(f"{k}={v}" for k, v in prm.items())};unit={unit:g}]', est, X, y))
     return out
 
 
